@@ -160,7 +160,15 @@ def check_case(ctx, case):
                 ctx.count("absent_variable_queries")
                 zero = M.call(rebuilt.at, S.make_point(pts[0] if pts else {}))
                 if not (rs[0] == "Constant" and rs[1] == 0):
-                    ctx.violation("absent_variable_not_zero", f"{what}: variable does not occur, expected Constant(0), got {S.show(rs)[:200]}")
+                    # any expression denoting zero on the original's domain is acceptable
+                    for (p, res) in dom[:4]:
+                        rz = R.EXACT.evaluate(rs, p)
+                        if rz.status == "def" and not R.is_zero(rz.root.iv) and not R.contains(rz.root.iv, 0):
+                            ctx.violation("absent_variable_not_zero", f"{what}: variable does not occur, but the returned {S.show(rs)[:200]} is not zero at {S.show_point(p)}")
+                            break
+                        if rz.status == "undef":
+                            ctx.violation("derivative_expression_undefined_on_domain", f"{what}: returned {S.show(rs)[:200]} is undefined at {S.show_point(p)} ({rz.undef[0]})")
+                            break
                 continue
             # rational fragment: all points at once
             if ref_rat is not None and P.is_rational_spec(rs):
